@@ -83,10 +83,16 @@ func cmdCheck(args []string) int {
 		fmt.Fprintln(os.Stderr, "lang:", err)
 		return 2
 	}
+	if bad := e.langs.CheckExamples(nil); len(bad) > 0 {
+		for _, b := range bad {
+			fmt.Println("CHECK-ERROR", b)
+		}
+		return 2
+	}
 	if err := e.Load(cfg.Packages...); err != nil {
 		// The tree does not build with hooks on: that is a broken check environment, report as violation of the check's premise
-		fmt.Printf("govc: cannot load packages: %v\n", err)
-		return r.fail([]*Failure{{Name: "load", Reason: "packages do not type-check: " + err.Error()}}, *noEvidence, nil)
+		fmt.Printf("CHECK-ERROR govc: cannot load packages (the tree does not build with -tags=verif): %v\n", err)
+		return 2
 	}
 	for _, msg := range e.cs.Errors {
 		fmt.Println("contract error:", msg)
